@@ -489,22 +489,22 @@ def _tensor_NS(d, tier):
 def buckets(tier):
     q = lambda a, b: {'quick': a, 'thorough': b}
     bl = [
-        Bucket('poly:jacobian', lambda: poly_cases('jacobian'), prop_poly_jacobian, q(150, 1000), nontrivial=_nt, classes=_cl,
+        Bucket('poly:jacobian', lambda: poly_cases('jacobian'), prop_poly_jacobian, q(150, 800), nontrivial=_nt, classes=_cl,
                shards=q(2, 6), weight=2.0),
-        Bucket('poly:jac_vec', lambda: poly_cases('jac_vec'), prop_poly_jac_vec, q(150, 1000), nontrivial=_nt, classes=_cl,
+        Bucket('poly:jac_vec', lambda: poly_cases('jac_vec'), prop_poly_jac_vec, q(150, 800), nontrivial=_nt, classes=_cl,
                shards=q(2, 6), weight=2.0),
-        Bucket('poly:hessian', lambda: poly_cases('hessian'), prop_poly_hessian, q(150, 1000), nontrivial=_nt, classes=_cl,
+        Bucket('poly:hessian', lambda: poly_cases('hessian'), prop_poly_hessian, q(150, 800), nontrivial=_nt, classes=_cl,
                shards=q(2, 6), weight=2.0),
-        Bucket('poly:hess_vec', lambda: poly_cases('hess_vec'), prop_poly_hess_vec, q(150, 1000), nontrivial=_nt, classes=_cl,
+        Bucket('poly:hess_vec', lambda: poly_cases('hess_vec'), prop_poly_hess_vec, q(150, 800), nontrivial=_nt, classes=_cl,
                shards=q(2, 6), weight=2.0),
-        Bucket('smooth:jacobian', lambda: smooth_cases('jacobian'), prop_smooth_jacobian, q(40, 300), nontrivial=_nt_smooth,
+        Bucket('smooth:jacobian', lambda: smooth_cases('jacobian'), prop_smooth_jacobian, q(40, 250), nontrivial=_nt_smooth,
                classes=_cl_smooth, shards=q(2, 6), weight=10.0),
-        Bucket('smooth:hessian', lambda: smooth_cases('hessian'), prop_smooth_hessian, q(40, 300), nontrivial=_nt_smooth,
+        Bucket('smooth:hessian', lambda: smooth_cases('hessian'), prop_smooth_hessian, q(40, 250), nontrivial=_nt_smooth,
                classes=_cl_smooth, shards=q(2, 6), weight=15.0),
     ]
     for d in range(1, 6):
         bl.append(Bucket('poly:tensor:d=%d' % d, (lambda d=d: poly_cases('tensor', d=d, tier=tier, NS=_tensor_NS(d, tier))),
-                         prop_poly_tensor, {1: q(60, 500), 2: q(60, 500), 3: q(25, 120), 4: q(25, 100), 5: q(25, 60)}[d], nontrivial=_nt, classes=_cl,
+                         prop_poly_tensor, {1: q(60, 500), 2: q(60, 400), 3: q(25, 90), 4: q(25, 70), 5: q(25, 40)}[d], nontrivial=_nt, classes=_cl,
                          shards=q(2, 6) if d <= 2 else q(3, 12), weight=3.0 * d * d))
     if tier == 'thorough':
         # the two largest tables (126 rays, 13-20 s per generate_Gamma_and_rays call, two calls per case)
